@@ -443,6 +443,7 @@ def node_values_rule(ctx):
 def run(ctx):
     from . import e2e_rules as _e2e
 
+    ctx.attempt(_e2e.beam_rule, ctx, 'R16.E3')
     ctx.attempt(_e2e.results_rule, ctx, 'R16.E1')
     # nodal and per-element forms of the results on a uniform state, single-group and mixed (TRI3 + QUAD4, TRI6 + QUAD8) meshes
     ctx.attempt(_e2e.patch_test_rule, ctx, 'R16.E2', ['TRI3', 'QUAD4', 'TRI3+QUAD4', 'TRI6+QUAD8'])
